@@ -233,3 +233,50 @@ c12_entry!(c12_entry_savage2, savage2_q, false);
 c12_entry!(c12_entry_jc2m, jc2m_q, false);
 c12_entry!(c12_entry_mindustry, mindustry_q, false);
 c12_entry!(c12_entry_theship, theship_q, false);
+
+/// A datagram as large as the largest receive buffer the library asks for
+/// (6144 bytes, Valve): delivered whole and unmodified (first, middle and last
+/// byte symbolic).
+#[cfg(kani)]
+#[kani::proof]
+#[kani::unwind(18)]
+#[kani::stub(alloc::fmt::format, stub_format)]
+fn c12_udp_large_datagram() {
+    let addr = any_addr_v4();
+    let (x, y, z): (u8, u8, u8) = (kani::any(), kani::any(), kani::any());
+    let n: usize = if kani::any() { 6144 } else { 5000 };
+    let mut d = vec![0x5Au8; 6144];
+    d.truncate(n);
+    d[0] = x;
+    d[4500] = y;
+    d[n - 1] = z;
+    world().push_data(d);
+    let mut s = UdpSocket::new(&addr, &None).unwrap();
+    let got = s.receive(Some(6144));
+    match &got {
+        Ok(v) => {
+            assert!(v.len() == n);
+            assert!(v[0] == x && v[4500] == y && v[n - 1] == z && v[1] == 0x5A);
+        }
+        Err(_) => assert!(false),
+    }
+    core::mem::forget((got, s));
+}
+
+/// A TCP peer that sends part of its reply and then stalls with the connection
+/// open: the receive reports a receive error after one read timeout; it does not
+/// keep polling.
+#[cfg(kani)]
+#[kani::proof]
+#[kani::unwind(18)]
+#[kani::stub(alloc::fmt::format, stub_format)]
+fn c12_tcp_partial_then_stall() {
+    let addr = any_addr_v4();
+    let part: [u8; 2] = kani::any();
+    world().push_partial(part.to_vec());
+    let mut s = TcpSocket::new(&addr, &None).unwrap();
+    let got = s.receive(None);
+    assert!(kind_of(&got) == Some(K::PacketReceive));
+    assert!(world().n_recvs == 1);
+    core::mem::forget((got, s));
+}
